@@ -1,5 +1,6 @@
 import PelProofs.Select
 import PelProofs.Main
+import PelProofs.Top
 import PelGen.Live
 /-
   C07 — PEL selection follows the documented class, severity and only-rules.
@@ -214,5 +215,44 @@ example : dispatch { isDir := fun _ => true, isFile := fun _ => true } { path :=
     (.plidMode (s "/pels") (s "50000001"), { sel := { hidden := true, lookup := true } }) := by decide
 example : (dispatch { isDir := fun _ => true, isFile := fun _ => true } { path := some (s "/pels"), file := some (s "x"), plid := some (s "50000001") }).2.sel.lookup
     = false := by decide
+
+/-! ### the WHOLE command: `runMain` = `dispatch` followed by the mode it names, on a `World` (model: PelModel/Top.lean) -/
+
+/-- ★ `peltool -p DIR -l …` as a whole (no option of higher priority, `DIR` a directory) IS `listOption` run on the top-level files of `DIR`
+    with the `Config` built from the command line — in every world, whatever the files contain — and the selection that `Config` carries is:
+    with NO selection option exactly the serviceable, customer-viewable PELs (`default_is_serviceable_visible` through `mkConfig`);
+    with `-E` every PEL (`every_selects_all` through `mkConfig`).  (`C08.command_default_selection_lists` spells the listed set out for a
+    directory of well-formed PELs.) -/
+theorem command_default_selection (env : Env) (a : Args) (w : World) (p : Text)
+    (hh : a.NoHigherMode) (hp : tv a.path = some p) (hd : w.pathIsDir = true) (hl : a.list = true) :
+    runMain env a w =
+      ofCli w (listMode (env.withCfg (mkConfig severityGroupTable a)) (mkConfig severityGroupTable a).opts w.dir) ∧
+    (a.NoSelection →
+      (mkConfig severityGroupTable a).opts.cfg = {} ∧
+      ∀ sev af, considerPEL sev af (mkConfig severityGroupTable a).opts.cfg = (specServiceable sev af && !specHidden af)) ∧
+    (a.every = true → ∀ sev af, considerPEL sev af (mkConfig severityGroupTable a).opts.cfg = true) := by
+  refine ⟨?_, ?_, ?_⟩
+  · rw [runMain_of_chain (chain_list hh hp hd hl)]
+    rfl
+  · intro hs
+    have hc : (mkConfig severityGroupTable a).opts.cfg = {} := main_default_config _ a hs
+    refine ⟨hc, fun sev af => ?_⟩
+    rw [hc]
+    exact default_is_serviceable_visible sev af
+  · intro he sev af
+    exact every_selects_all sev af _ ((main_config_switches severityGroupTable a).1.trans he)
+
+/-! Non-vacuity: `-p /pels -l` and `-p /pels -l -E` in `wDemo`. -/
+example : ({ path := some (s "/pels"), list := true } : Args).NoHigherMode ∧ ({ path := some (s "/pels"), list := true } : Args).NoSelection ∧
+    wDemo.pathIsDir = true := ⟨⟨rfl, rfl, rfl, rfl, rfl, rfl, rfl⟩, ⟨rfl, rfl, rfl, rfl, rfl, rfl, rfl⟩, rfl⟩
+example : (runMain envDemo { path := some (s "/pels"), list := true } wDemo).stdout = s "{}\n" ∧
+    (runMain envDemo { path := some (s "/pels"), list := true, every := true } wDemo).exit = 0 := by decide
+
+-- with real PELs (`wPels`): the plain `-l` shows the serviceable, customer-viewable PEL only; `-l -E` and `-l -H` show the hidden one too
+example : (runMain envDemo { path := some (s "/pels"), list := true, hex := true } wPels).stdout = linesOut (pelHexDisplay pelDemo) ∧
+    (runMain envDemo { path := some (s "/pels"), list := true, hex := true, every := true } wPels).stdout =
+      linesOut (pelHexDisplay pelDemo) ++ linesOut (pelHexDisplay pelHiddenDemo) ∧
+    (runMain envDemo { path := some (s "/pels"), list := true, hex := true, hidden := true } wPels).stdout =
+      linesOut (pelHexDisplay pelDemo) ++ linesOut (pelHexDisplay pelHiddenDemo) := by decide +kernel
 
 end Pel.C07
